@@ -487,6 +487,10 @@ static void N(unary_case)(uint64_t idx, void *vctx)
                 for (int k = 0; k < ea.n; k++) if (ea.r[k].x2 + dx > RMAX || ea.r[k].y2 + dy > RMAX || ea.r[k].x1 + dx < RMIN || ea.r[k].y1 + dy < RMIN) overflow = 1;
                 const char *key = (RW == 32 && overflow) ? "c07-translate32-overflow-wraps" : "c07-translate";
                 vf_violation(key, "%s: library holds %s, expected %s", what, m_str(&got, a, sizeof a), m_str(&eres, b, sizeof b));
+            } else if (got.n != eres.n) {
+                /* the right points, but n_rects (and the member rectangles contains_point hands out) must describe the SET: a set has one y-x-banded form */
+                char a[700], b[700];
+                vf_violation("c07-translate-n_rects", "%s: the library holds the right points as %d rectangles %s; n_rects of this set is %d: %s", what, got.n, m_str(&got, a, sizeof a), eres.n, m_str(&eres, b, sizeof b));
             } else N(judge)(&ra, &eres, what);
         }
 #elif PROP == 6
